@@ -779,10 +779,14 @@ const Port *Ports::apropos(const char *path) const
                 ? port.ports->apropos(path_end)
                 : &port;
 
-    //This is the lowest level, now find the best port
+    //This is the lowest level, now find the best port:
+    //one that matches the whole path is better than one that only starts
+    //with it (e.g. "a" shall find "a::i", even if "arr#4::i" comes first)
     for(const Port &port: ports)
-        if(*path && (strstr(port.name, path)==port.name ||
-                    rtosc_match_path(port.name, path, NULL)))
+        if(*path && rtosc_match_path(port.name, path, NULL))
+            return &port;
+    for(const Port &port: ports)
+        if(*path && strstr(port.name, path)==port.name)
             return &port;
 
     return NULL;
